@@ -1425,6 +1425,8 @@ func (f *BigFloat) LaxEqual(other Value) bool {
 		return f.LaxEqualInt16(other.AsInt16())
 	case INT8_FLAG:
 		return f.LaxEqualInt8(other.AsInt8())
+	case UINT_FLAG:
+		return f.LaxEqualUInt64(UInt64(other.AsUInt()))
 	case UINT64_FLAG:
 		return f.LaxEqualUInt64(other.AsInlineUInt64())
 	case UINT32_FLAG:
